@@ -71,6 +71,7 @@ type pathRun struct {
 	pcSet     map[*Term]bool
 	known     map[*Term]uint64
 	obs       []obsRec // observations for native cross-validation (vxObserve)
+	stdout    value    // what fmt.Print* wrote since the last vxStdoutBegin (goroutine-free harnesses)
 }
 
 type obsRec struct {
